@@ -1,5 +1,6 @@
 import CkbVerif.Driver.Util
 import CkbVerif.Model.Epoch
+import CkbVerif.Model.EpochU256
 
 /-! Line-protocol driver for C07 (protocol: harness/hcore/src/c07.rs). Stateless: every op is a pure
 function of its arguments. -/
@@ -12,6 +13,14 @@ def b01 (b : Bool) : String := if b then "1" else "0"
 
 def optNat : Option Nat → String
   | some v => toString v
+  | none => "fail"
+
+def optHx : Option Nat → String
+  | some v => hx v
+  | none => "fail"
+
+def optRat : Option URat → String
+  | some r => s!"{r.n}/{r.d}"
   | none => "fail"
 
 def step (_s : Unit) (ts : List String) : Unit × String :=
@@ -67,6 +76,28 @@ def step (_s : Unit) (ts : List String) : Unit × String :=
               { number, base, rem, prevHR, start, length := len, compact := hc } hn with
            | none => "fail"
            | some o => s!"{o.number} {o.base} {o.rem} {hx o.prevHR} {o.start} {o.length} {o.compact}")
+        | "uadd", [a, b] => optHx (U256.add a b)
+        | "usub", [a, b] => optHx (U256.sub a b)
+        | "umul", [a, b] => optHx (U256.mul a b)
+        | "udiv", [a, b] => optHx (U256.div a b)
+        | "urem", [a, b] => optHx (U256.rem a b)
+        | "ugcd", [a, b] => hx (U256.gcd a b)
+        | "ucmp", [a, b] => if a < b then "lt" else if a = b then "eq" else "gt"
+        | "ushl", [a, k] => hx (U256.shl a k)
+        | "ushr", [a, k] => hx (U256.shr a k)
+        | "ulz", [a] => toString (U256.leadingZeros a)
+        | "utz", [a] => toString (U256.tz a)
+        | "ulow", [a] => toString (U256.low64 a)
+        | "rnew", [n, d] => optRat (URat.new n d)
+        | "rmul", [an, ad, bn, bd] => optRat (URat.mul ⟨an, ad⟩ ⟨bn, bd⟩)
+        | "rdiv", [an, ad, bn, bd] => optRat (URat.div ⟨an, ad⟩ ⟨bn, bd⟩)
+        | "rmulu", [an, ad, u] => optRat (URat.mulU ⟨an, ad⟩ u)
+        | "raddu", [an, ad, u] => optRat (URat.addU ⟨an, ad⟩ u)
+        | "rsatsub", [an, ad, u] => optRat (URat.satSubU ⟨an, ad⟩ u)
+        | "rgt", [an, ad, bn, bd] =>
+          (match URat.gt ⟨an, ad⟩ ⟨bn, bd⟩ with
+           | none => "fail" | some b => b01 b)
+        | "rfloor", [an, ad] => optHx (URat.floor ⟨an, ad⟩)
         | "genesis", [R, c, L, T, on, od] =>
           (match genesisEpochExt R c L T on od with
            | none => "fail"
